@@ -79,6 +79,16 @@ def loadCovers (asked : List Str) (snap : Dict Str (List Int)) : Bool :=
     | some ps => !ps.isEmpty
     | none => false
 
+/-- … and what the exactly-once clause needs from it: for every requested topic the snapshot lists
+    exactly the partition ids that the metadata reply it was built from lists for that topic — no
+    partition left out (it would be assigned to nobody), none invented.  `reply`: per topic the error
+    code and the partition ids, as `_load_topic_partitions` sees them. -/
+def loadFaithful (asked : List Str) (reply : Dict Str (Int × List Int)) (snap : Dict Str (List Int)) : Bool :=
+  asked.all fun t =>
+    match dget t reply, dget t snap with
+    | some (_, ps), some qs => ps.all (fun p => qs.contains p) && qs.all (fun p => ps.contains p)
+    | _, _ => false
+
 /-- What a member decodes is exactly what it was assigned (same `(topic, partition)` pairs). -/
 def decodesOwn (assigned decoded : Dict Str (List Int)) : Bool :=
   (pairsOf decoded).isPerm (pairsOf assigned)
